@@ -171,7 +171,9 @@ func num(v interface{}) int {
 	return 0
 }
 
-func le32(x uint32) []int { return []int{int(x & 0xff), int(x >> 8 & 0xff), int(x >> 16 & 0xff), int(x >> 24)} }
+func le32(x uint32) []int {
+	return []int{int(x & 0xff), int(x >> 8 & 0xff), int(x >> 16 & 0xff), int(x >> 24)}
+}
 func le64(x uint64) []int {
 	out := make([]int, 8)
 	for i := 0; i < 8; i++ {
